@@ -35,7 +35,8 @@ Proof. exact collect_safe_lemma. Qed.
 (* HEADLINE 2 (root model).  For every VM state and heap: the collection as the VM runs it keeps
    every object the program can reach -- through a register inside the window of ANY active frame,
    the function or closure of ANY active frame, a global (by name or by index), an open or current
-   upvalue, and from there along any stored reference -- unchanged; frees exactly the rest; leaves
+   upvalue, a slot of a live manually managed buffer (rooted since /repo 474d1a4), and from there
+   along any stored reference -- unchanged; frees exactly the rest; leaves
    no layout snapshot behind; and every such place still refers to the object it referred to.
    Premise: every frame records the register count of the function it runs (frames_consistent;
    checked on every dumped state and at every audited collection; C03_frame_count_premise_needed
@@ -198,6 +199,16 @@ Theorem C03_old_roots_running_closure_refuted :
     program_reachable s h i /\ get h i = Some o
     /\ collect h (collect_roots_old s) = Some h' /\ get h' i = None.
 Proof. exact old_roots_running_closure_refuted_lemma. Qed.
+
+(* HISTORICAL (root list before /repo 474d1a4: values stored in manual memory were not roots): a
+   string whose only reference is a slot of a live alloc()ed buffer was freed and load() returned a
+   dangling pointer; the current root list keeps it *)
+Theorem C03_old_roots_manual_buffer_refuted :
+  exists s h i o h',
+    holds_ref s i /\ get h i = Some o
+    /\ collect h (collect_roots_no_manual s) = Some h' /\ get h' i = None
+    /\ exists s2 h2, vm_collect s h = Some (s2, h2) /\ get h2 i = Some o.
+Proof. exact manual_buffer_roots_refuted_lemma. Qed.
 
 Example C03_running_closure_now_survives :
   exists s' h', vm_collect kf3_vm kf3_heap = Some (s', h') /\ get h' 145 = Some kf3_closure.
